@@ -26,6 +26,7 @@ func phasesFor(prop string) []phaseDef {
 			{"memory", "plain", 60000, 300000, func(r *Rng, i int) []*Scenario {
 				return []*Scenario{{Property: "C01", Phase: "memory", Doc: genDoc(r, docMax(r))}}
 			}},
+			{"large", "plain", 400, 8000, func(r *Rng, i int) []*Scenario { return genStreamLarge(r, "C01", "large", 0.2, 0.1) }},
 			{"trunc-enum", "plain", 400, 6000, func(r *Rng, i int) []*Scenario { return genEnumK(r, "C01", "trunc-enum", "early-eof") }},
 		}
 	case "C08":
@@ -34,6 +35,7 @@ func phasesFor(prop string) []phaseDef {
 			{"A-knob", "knob", 100000, 600000, func(r *Rng, i int) []*Scenario { return genStream(r, "C08", "A-knob", true, 0, 0) }},
 			{"B", "plain", 100000, 600000, func(r *Rng, i int) []*Scenario { return genStream(r, "C08", "B", false, 0.25, 0.75) }},
 			{"B-knob", "knob", 100000, 600000, func(r *Rng, i int) []*Scenario { return genStream(r, "C08", "B-knob", true, 0.25, 0.75) }},
+			{"large", "plain", 500, 10000, func(r *Rng, i int) []*Scenario { return genStreamLarge(r, "C08", "large", 0.15, 0.35) }},
 			{"B-enum", "knob", 400, 8000, func(r *Rng, i int) []*Scenario { return genEnumK(r, "C08", "B-enum", "error") }},
 		}
 	case "C04":
@@ -111,6 +113,97 @@ func genStream(r *Rng, prop, phase string, knob bool, pEarly, pErr float64) []*S
 	if knob {
 		s.Knobs = map[string]int{"chunkSize": chunkKnobs[r.Intn(len(chunkKnobs))]}
 	}
+	return []*Scenario{s}
+}
+
+// genStreamLarge: documents of 10-90 KiB under the REAL constants (8 KiB
+// chunks), so buffer growth, sliding and multi-chunk blocks are exercised
+// without the knob seam.
+func genStreamLarge(r *Rng, prop, phase string, pEarly, pErr float64) []*Scenario {
+	loadCorpus()
+	target := r.Range(10, 90) * 1024
+	var doc []byte
+	for len(doc) < target {
+		var part []byte
+		switch r.Intn(4) {
+		case 0:
+			part = compose(r, r.Range(1, 6))
+		case 1:
+			// one very long block (paragraph or code) spanning several chunks
+			line := inlineText(r)
+			n := r.Range(50, 600)
+			for i := 0; i < n; i++ {
+				part = append(part, line...)
+				part = append(part, '\n')
+			}
+		default:
+			part = corpus[r.Intn(len(corpus))].Data
+		}
+		doc = append(doc, part...)
+		if r.Chance(0.7) {
+			doc = append(doc, '\n')
+		}
+	}
+	if r.Chance(0.3) {
+		doc = lineEndings(r, doc)
+	}
+	if r.Chance(0.2) {
+		for i := 0; i < 3; i++ {
+			doc = insertAt(doc, r.Intn(len(doc)+1), []byte{0, 0})
+		}
+	}
+	s := &Scenario{Property: prop, Phase: phase, Doc: doc}
+	rs := &ReaderScn{Terminal: r.Pick([]string{"separate", "with-data"}), ExtraCalls: r.Range(1, 3)}
+	rs.Fault.Kind = "none"
+	limit := len(doc)
+	switch x := r.U64() % 1000; {
+	case float64(x) < pErr*1000:
+		rs.Fault = FaultScn{Kind: "error", At: r.Intn(len(doc) + 1), Err: r.Pick(faultErrKinds), WithData: r.Chance(0.5)}
+		limit = rs.Fault.At
+	case float64(x) < (pErr+pEarly)*1000:
+		rs.Fault = FaultScn{Kind: "early-eof", At: r.Intn(len(doc) + 1), WithData: r.Chance(0.5)}
+		limit = rs.Fault.At
+	}
+	switch r.Intn(5) {
+	case 0:
+		rs.Family = "whole"
+	case 1:
+		rs.Family = "uniform-large"
+		m := []int{100, 1000, 5000, 8192, 20000}[r.Intn(5)]
+		for left := limit; left > 0; {
+			n := r.Range(1, m)
+			rs.Ops = append(rs.Ops, n)
+			left -= n
+		}
+	case 2:
+		rs.Family = "chunk-aligned"
+		for left := limit; left > 0; {
+			n := 8192 + r.Range(-2, 2)
+			rs.Ops = append(rs.Ops, n)
+			left -= n
+		}
+	case 3:
+		rs.Family = "geometric"
+		for left := limit; left > 0; {
+			n := 1 << uint(r.Intn(15))
+			n = r.Range((n+1)/2, n)
+			rs.Ops = append(rs.Ops, n)
+			left -= n
+		}
+	default:
+		rs.Family = "boundary"
+		crlf, nul, rn, blank := cutPoints(doc[:limit], nil)
+		var cuts []int
+		for _, ps := range [][]int{crlf, nul, rn, blank} {
+			for _, x := range ps {
+				if r.Chance(0.05) {
+					cuts = append(cuts, x)
+				}
+			}
+		}
+		rs.Ops = cutsToOps(cuts, limit)
+	}
+	s.Reader = rs
 	return []*Scenario{s}
 }
 
